@@ -212,6 +212,33 @@ func c11Moment(w *W, st ref.Stamp, class string) {
 		a, b := ec.GetYun(g), ec.GetYunBySect(g, 1)
 		add(fmt.Sprintf("GetYun(%d)|GetYunBySect(%d,1)", g, g), yunStr(a), yunStr(b))
 	}
+	// school parameter outside {1, 2}: every Fu-position accessor documents "1 = first verse, anything else = second";
+	// the hour object and the lunar date must agree for every value, and all of them are one function of (stem, school)
+	lmo := calendar.NewLunarMonthFromYm(l.GetYear(), l.GetMonth())
+	for _, sect := range []int{-1, 0, 1, 2, 3, 99} {
+		add(fmt.Sprintf("Time.GetPositionFuBySect(%d)|GetTimePositionFuBySect", sect), lt.GetPositionFuBySect(sect), l.GetTimePositionFuBySect(sect))
+		add(fmt.Sprintf("Time.GetPositionFuDescBySect(%d)|GetTimePositionFuDescBySect", sect), lt.GetPositionFuDescBySect(sect), l.GetTimePositionFuDescBySect(sect))
+		school := "second"
+		if sect == 1 {
+			school = "first"
+		}
+		w.FD("fu-by-stem-school", l.GetDayGan()+"/"+school, l.GetDayPositionFuBySect(sect), key)
+		w.FD("fu-by-stem-school", l.GetTimeGan()+"/"+school, l.GetTimePositionFuBySect(sect), key)
+		w.FD("fu-by-stem-school", lt.GetGan()+"/"+school, lt.GetPositionFuBySect(sect), key)
+		w.FD("fu-by-stem-school", ly.GetGan()+"/"+school, ly.GetPositionFuBySect(sect), key)
+		if lmo != nil {
+			w.FD("fu-by-stem-school", lmo.GetGan()+"/"+school, lmo.GetPositionFuBySect(sect), key)
+		}
+		w.Eval(5)
+	}
+	for _, sect := range []int{-1, 0, 4, 99} {
+		// conventions outside {1, 2, 3} fall back to the default (2) for year/month/day accessors that take one
+		add(fmt.Sprintf("GetYearNineStarBySect(%d)|default", sect), l.GetYearNineStarBySect(sect).GetIndex(), l.GetYearNineStar().GetIndex())
+		add(fmt.Sprintf("GetMonthNineStarBySect(%d)|default", sect), l.GetMonthNineStarBySect(sect).GetIndex(), l.GetMonthNineStar().GetIndex())
+		add(fmt.Sprintf("GetYearPositionTaiSuiBySect(%d)|default", sect), l.GetYearPositionTaiSuiBySect(sect), l.GetYearPositionTaiSui())
+		add(fmt.Sprintf("GetMonthPositionTaiSuiBySect(%d)|default", sect), l.GetMonthPositionTaiSuiBySect(sect), l.GetMonthPositionTaiSui())
+		add(fmt.Sprintf("GetDayPositionTaiSuiBySect(%d)|default", sect), l.GetDayPositionTaiSuiBySect(sect), l.GetDayPositionTaiSui())
+	}
 	// Desc accessors vs the description table
 	for _, d := range [][2]string{{l.GetDayPositionXi(), l.GetDayPositionXiDesc()}, {l.GetDayPositionCai(), l.GetDayPositionCaiDesc()}, {l.GetTimePositionYangGui(), l.GetTimePositionYangGuiDesc()},
 		{l.GetYearPositionTaiSuiBySect(3), l.GetYearPositionTaiSuiDescBySect(3)}, {l.GetMonthPositionTaiSuiBySect(3), l.GetMonthPositionTaiSuiDescBySect(3)}, {l.GetDayPositionTaiSuiBySect(1), l.GetDayPositionTaiSuiDescBySect(1)},
